@@ -123,6 +123,11 @@ var c05Catalogue = []c05Corruption{
 		if o == nil {
 			return nil, nil
 		}
+		// mostly a provider that is in the very same pairing (then "names the sender" is the ONLY
+		// precondition that does not hold); stream "c05multi", 0 = the provider drawn above
+		if alt := k.c05PairedOther(b); alt != nil {
+			o = alt
+		}
 		np := k.resign(b, b.Signer, "r:provider_not_sender", func(rel *pairingtypes.RelaySession) { rel.Provider = o.Acc.Addr })
 		np.MustReject = "relay names another provider than the sender"
 		return np, b.Prov
@@ -284,6 +289,103 @@ var c05Catalogue = []c05Corruption{
 	}},
 }
 
+// c05PairedOther: a provider other than the proof's that is in the current pairing of the proof's
+// signer for the proof's chain (tape: stream "c05multi", 0 = none).
+func (k *c03Kit) c05PairedOther(b *c03Proof) *ProviderActor {
+	r := k.s.R
+	if b.Signer == nil || r.Draw("c05multi", 3) == 0 {
+		return nil
+	}
+	var cands []*ProviderActor
+	for _, p := range k.s.pairedProvidersFor(b.Signer, b.Rel.SpecId) {
+		if p != b.Prov {
+			cands = append(cands, p)
+		}
+	}
+	if len(cands) == 0 {
+		return nil
+	}
+	return cands[r.Draw("c05multi", len(cands))]
+}
+
+// c05GoodFor builds a fresh relay that `creator` can claim on its own right now (a dry run on a
+// discarded branch accepts it): some consumer key x chain whose current pairing contains creator.
+// The tape (stream "c05multi") picks where the search starts.
+func (k *c03Kit) c05GoodFor(creator *ProviderActor) *c03Proof {
+	s, r := k.s, k.s.R
+	nc, ns := len(s.Consumers), len(s.Specs)
+	c0, s0 := r.Draw("c05multi", nc), r.Draw("c05multi", ns)
+	tries := 0
+	for i := 0; i < nc && tries < 6; i++ {
+		c := s.Consumers[(c0+i)%nc]
+		keys := append([]*Account{c.Acc}, c.Devs...)
+		signer := keys[r.Draw("c05multi", len(keys))]
+		for j := 0; j < ns && tries < 6; j++ {
+			spec := s.Specs[(s0+j)%ns].Index
+			paired := false
+			for _, p := range s.pairedProvidersFor(signer, spec) {
+				if p == creator {
+					paired = true
+				}
+			}
+			if !paired {
+				continue
+			}
+			tries++
+			g := k.build(c, signer, creator, spec, int64(s.EpochStart()), k.nextSession(), uint64(1+r.Draw("c05multi", 100)), "good_next_to_corrupted")
+			if _, err := k.dryRun(creator, []*pairingtypes.RelaySession{g.Rel}); err == nil {
+				return g
+			}
+		}
+	}
+	return nil
+}
+
+// c05Hide: the corrupted relay travels in ONE message together with good relays of the sender
+// (each of them payable on its own), at a tape-chosen position: after a good one, before a good
+// one, between two, after two. The statement speaks about every relay session of a payment, so a
+// relay that must be refused must be refused wherever it stands in the message. Stream
+// "c05multi", 0 = the corrupted relay travels alone.
+func (k *c03Kit) c05Hide(bad *c03Proof, creator *ProviderActor) ([]*c03Proof, bool) {
+	r := k.s.R
+	shape := r.Draw("c05multi", 6)
+	if shape == 0 || shape == 5 {
+		return []*c03Proof{bad}, false
+	}
+	want := 1
+	if shape >= 3 {
+		want = 2
+	}
+	var goods []*c03Proof
+	for len(goods) < want {
+		g := k.c05GoodFor(creator)
+		if g == nil {
+			break
+		}
+		goods = append(goods, g)
+	}
+	if len(goods) == 0 {
+		r.Probe("c05_hide_no_good_relay_for_sender")
+		return []*c03Proof{bad}, false
+	}
+	var batch []*c03Proof
+	switch {
+	case shape == 2:
+		batch = append([]*c03Proof{bad}, goods...)
+		r.Probe("c05_hidden_before_good_relays")
+	case shape == 3 && len(goods) == 2:
+		batch = []*c03Proof{goods[0], bad, goods[1]}
+		r.Probe("c05_hidden_between_good_relays")
+	default:
+		batch = append(append([]*c03Proof{}, goods...), bad)
+		r.Probe("c05_hidden_after_good_relays")
+	}
+	if batch[0] != bad && bad.Rel.Provider != creator.Acc.Addr {
+		r.Probe("c05_foreign_provider_relay_after_own_relay")
+	}
+	return batch, true
+}
+
 // richFresh builds a fresh payable relay that carries optional reports (so that they can be
 // corrupted).
 func (k *c03Kit) richFresh(kind string) (*c03Proof, bool) {
@@ -331,6 +433,9 @@ func (s *Sim) opC05Probe() {
 			batch = []*c03Proof{other, bad}
 			mixed = true
 		}
+	}
+	if !mixed {
+		batch, mixed = k.c05Hide(bad, creator)
 	}
 	r.Fault("c05_corrupt_" + c03KindClass(bad.Kind))
 	tx := k.send("relay_corrupted", creator, batch)
